@@ -10,6 +10,11 @@ E1 (bounded exhaustive enumeration against mc/ref_c10.py, the definitions on poi
            deleting one point}, from a table built over S_{n+1}), remove / remove_element for
            every index / value and their defaults, remove-then-insert; every list-returning
            operation is called a second time after the first result was emptied by the caller.
+  inflations  block-structured permutations beyond the exhaustive range: every inflation of 01, 10
+           and the simples of length 4, 5 with at most two non-trivial components from a fixed
+           alphabet (perms <= 3, simples 4..6, monotone 4..6), total length <= 11 (quick) / 13;
+           the window-scanning observers (decomp, blocks, mono groups) against brute force.
+  long     (thorough) every permutation of length 9, blocks group.
   duality  every q: q is in coveredby(c) for each child c of q and in children(r) for each r in
            coveredby(q) (implementation against itself).
   insert   every (p, index, value) with 0 <= index <= n+1, 0 <= value <= n, defaults included;
@@ -155,7 +160,10 @@ def _empty_out(res):
 FRESH_MAX = 6     # the second-call observations are made for permutations up to this length
 
 
-def unary_observations(Perm, p, cover, full=True):
+SCAN_GROUPS = ("decomp", "blocks", "mono")     # the observers that scan windows of the permutation
+
+
+def unary_observations(Perm, p, cover, full=True, groups=None):
     """[(sub, op, thunk, expected)] for one permutation p (a tuple).  cover: set of the perms of
     length n+1 covering p, or None when the table is not available for this length.
     full=False leaves out the removal family (n ... 3n calls, explored by `insert` as well)."""
@@ -163,7 +171,11 @@ def unary_observations(Perm, p, cover, full=True):
     n = len(p)
     P = Perm(p)
     out = []
-    add = lambda sub, op, thunk, exp: out.append((sub, op, thunk, exp))  # noqa
+    if groups is None:
+        add = lambda sub, op, thunk, exp: out.append((sub, op, thunk, exp))  # noqa
+    else:
+        add = lambda sub, op, thunk, exp: (out.append((sub, op, thunk, exp))  # noqa
+                                           if sub in groups else None)
 
     # ---- sum / skew decomposition ------------------------------------------------------
     for kind, sumop, refdec, refflag in (
@@ -201,6 +213,7 @@ def unary_observations(Perm, p, cover, full=True):
     else:
         exp_max = (0, 0)
     add("blocks", "maximum_block", lambda: tuple(P.maximum_block()), exp_max)
+    add("blocks", "simple_location", lambda: tuple(P.simple_location()), exp_max)
     add("blocks", "is_simple", lambda: P.is_simple(), not iv)
     add("blocks", "is_strongly_simple", lambda: P.is_strongly_simple(), X.is_strongly_simple(p))
 
@@ -249,10 +262,10 @@ def unary_observations(Perm, p, cover, full=True):
     return out
 
 
-def check_unary(part, Perm, p, cover, after=None, full=True):
+def check_unary(part, Perm, p, cover, after=None, full=True, groups=None):
     case0 = {"perm": p, "after": after}
     bad = 0
-    obs = unary_observations(Perm, p, cover, full)
+    obs = unary_observations(Perm, p, cover, full, groups)
     for sub, op, thunk, exp in obs:
         case = dict(case0, op=op)
         if not observe(part, sub, case, thunk, exp):
@@ -297,6 +310,81 @@ def shard_unary(shard):
         part.sample({"sub": "unary", "perm": q, "sum_decomposition": X.sum_decomposition(q),
                      "blocks": X.block_table(q), "monotone_runs": X.monotone_runs(q, (1, -1), True),
                      "children": sorted(X.children(q))}, cap=1)
+    return part
+
+
+# --------------------------------------------------------------------------------------------
+# block-structured permutations beyond the exhaustive range: inflations of small skeletons
+# --------------------------------------------------------------------------------------------
+
+def inflation_family(maxlen):
+    """Every inflation sigma[a_1..a_k] of total length <= maxlen where sigma is 01, 10 or a simple
+    permutation of length 4 or 5, at most two a_i are not a single point, and those are taken
+    from: all permutations of length 2 and 3, the simple permutations of length 4..6, the
+    increasing and the decreasing permutation of length 4..6; when only ONE a_i is not a point it
+    may also be a simple permutation of length 7 or a monotone one of length 7 or 8.  Returned as
+    a duplicate-free list sorted by (length, permutation)."""
+    skeletons = [(0, 1), (1, 0)] + X.simples(4) + X.simples(5)
+    comps = [p for k in (2, 3) for p in itertools.permutations(range(k))]
+    for k in (4, 5, 6):
+        comps += X.simples(k) + [tuple(range(k)), tuple(range(k - 1, -1, -1))]
+    single = comps + X.simples(7) + [tuple(range(k)) for k in (7, 8)] + \
+        [tuple(range(k - 1, -1, -1)) for k in (7, 8)]
+    out = set()
+    for s in skeletons:
+        k = len(s)
+        for r in (0, 1, 2):
+            for pos in itertools.combinations(range(k), r):
+                for cs in itertools.product(single if r == 1 else comps, repeat=r):
+                    if k - r + sum(len(a) for a in cs) > maxlen:
+                        continue
+                    lst = [None] * k
+                    for i, a in zip(pos, cs):
+                        lst[i] = a
+                    out.add(X.inflate(s, lst))
+    return sorted(out, key=lambda p: (len(p), p)), len(skeletons), (len(comps), len(single))
+
+
+_FAMILY = []     # filled in the parent before forking
+
+
+def structured_class(p, iv):
+    """Measured description of a family member: (indecomposable, every proper interval is longer
+    than half of the permutation)."""
+    n = len(p)
+    indec = not X.sum_cuts(p) and not X.skew_cuts(p)
+    return indec, bool(iv) and min(iv) > n // 2
+
+
+def shard_inflations(shard):
+    lo, hi = shard
+    Perm = _P()
+    part = Partial()
+    for p in _FAMILY[lo:hi]:
+        check_unary(part, Perm, p, None, after=None, groups=SCAN_GROUPS)
+        part.add(1, 1 if len(p) >= 9 else 0)
+        iv = X.intervals(p)
+        indec, only_long = structured_class(p, iv)
+        if indec and only_long:
+            part.bump("inflations_indecomposable_all_intervals_longer_than_half")
+        if not iv:
+            part.bump("inflations_simple")
+        part.outcomes.add(("infl", len(p), indec, max(iv) if iv else 0, min(iv) if iv else 0))
+    if lo == 0 and _FAMILY:
+        q = _FAMILY[len(_FAMILY) // 2]
+        part.sample({"sub": "inflations", "perm": q, "blocks": X.block_table(q),
+                     "sum_decomposition": X.sum_decomposition(q)}, cap=1)
+    return part
+
+
+def shard_long(shard):
+    """All permutations of one length, window-scanning interval observers only."""
+    n, lo, hi = shard
+    Perm = _P()
+    part = Partial()
+    for p in level_slice(n, lo, hi):
+        check_unary(part, Perm, p, None, after=None, groups=("blocks",))
+        part.add(1, unary_nontrivial(p))
     return part
 
 
@@ -622,7 +710,8 @@ def run(ctx, only=None):
 
     quick = ctx.quick
     Perm = _P()
-    ctx.rule = ("unary: permutations of length >= 3 that are not monotone; duality: length >= 2; "
+    ctx.rule = ("unary, long: permutations of length >= 3 that are not monotone; inflations: distinct "
+                "members of length >= 9; duality: length >= 2; "
                 "insert: 0 < index < n and 0 < value < n; shift: law instances with n >= 3 and neither "
                 "amount = 0 mod n; "
                 "compose: neither factor nor the product is the identity (triples: p and q, r not "
@@ -667,6 +756,33 @@ def run(ctx, only=None):
             "coveredby_perm_length": "0..%d (table over S_%d)" % (cmax, cmax + 1),
             "second_call_perm_length": "0..%d" % FRESH_MAX}
         ctx.section("unary", perms=ctx.evals - e0)
+
+    # ---- block-structured permutations of length up to 11 / 13 --------------------------------
+    if want("inflations"):
+        maxlen = 11 if quick else 13
+        fam, nskel, ncomp = inflation_family(maxlen)
+        _FAMILY[:] = fam
+        e0 = ctx.evals
+        ctx.pmap(shard_inflations, [(lo, min(len(fam), lo + 400)) for lo in range(0, len(fam), 400)])
+        del _FAMILY[:]
+        ctx.bounds["inflations"] = {
+            "skeletons": "01, 10, the simple permutations of length 4 and 5 (%d)" % nskel,
+            "components": "all perms of length 2, 3; simples of length 4..6; increasing and "
+                          "decreasing of length 4..6 (%d); with a single non-trivial component also "
+                          "simples of length 7 and monotone of length 7, 8 (%d); every other point "
+                          "stays a point" % ncomp,
+            "non_trivial_components": "at most 2, at every choice of positions",
+            "total_length": "<= %d" % maxlen, "distinct_permutations": len(fam),
+            "observers": "decomp, blocks, mono groups against the brute-force references"}
+        ctx.section("inflations", perms=ctx.evals - e0)
+
+    # ---- every permutation of length 9, interval observers ----------------------------------
+    if want("long") and not quick:
+        e0 = ctx.evals
+        ctx.pmap(shard_long, [(9, lo, hi) for lo, hi in chunks(9, 2268)])
+        ctx.bounds["long"] = "every permutation of length 9: the blocks group (block_decomposition, " \
+                             "as_pattern, maximum_block, simple_location, is_simple, is_strongly_simple)"
+        ctx.section("long", perms=ctx.evals - e0)
 
     # ---- duality ---------------------------------------------------------------------------
     if want("duality"):
